@@ -36,23 +36,25 @@ theorem Book.fail_inv (b : Book) (t : Task) (h : BookInv b) : BookInv (b.fail t)
   obtain ⟨hc, hu, hs, hd⟩ := h
   exact ⟨hc, hu, hs, hd⟩
 
-theorem execTask_book (cfg : Cfg) (st : Exec) (t : Task) :
-    (∃ w', perform cfg st.w t = some w' ∧ execTask cfg st t = ⟨w', st.b.ok t⟩) ∨
-    (perform cfg st.w t = none ∧ execTask cfg st t = ⟨st.w, st.b.fail t⟩) := by
+theorem execTask_book (cfg : Cfg) (flt : Faults) (st : Exec) (t : Task) :
+    (∃ w', execTask cfg flt st t = ⟨w', st.b.ok t⟩) ∨
+    (∃ w', execTask cfg flt st t = ⟨w', st.b.fail t⟩) := by
   unfold execTask
-  cases h : perform cfg st.w t with
-  | none => exact Or.inr ⟨rfl, rfl⟩
-  | some w' => exact Or.inl ⟨w', rfl, rfl⟩
+  split
+  · exact Or.inr ⟨_, rfl⟩
+  · cases h : perform cfg st.w t with
+    | none => exact Or.inr ⟨_, rfl⟩
+    | some w' => exact Or.inl ⟨w', rfl⟩
 
-theorem execTask_bookInv (cfg : Cfg) (st : Exec) (t : Task) (h : BookInv st.b) :
-    BookInv (execTask cfg st t).b := by
-  rcases execTask_book cfg st t with ⟨w', _, he⟩ | ⟨_, he⟩ <;> rw [he]
+theorem execTask_bookInv (cfg : Cfg) (flt : Faults) (st : Exec) (t : Task) (h : BookInv st.b) :
+    BookInv (execTask cfg flt st t).b := by
+  rcases execTask_book cfg flt st t with ⟨w', he⟩ | ⟨w', he⟩ <;> rw [he]
   · exact Book.ok_inv _ _ h
   · exact Book.fail_inv _ _ h
 
-theorem foldl_execTask_bookInv (cfg : Cfg) (tasks : List Task) (st : Exec) (h : BookInv st.b) :
-    BookInv (tasks.foldl (execTask cfg) st).b :=
-  foldl_inv (execTask cfg) (fun s => BookInv s.b) tasks st h (fun s t _ hs => execTask_bookInv cfg s t hs)
+theorem foldl_execTask_bookInv (cfg : Cfg) (flt : Faults) (tasks : List Task) (st : Exec) (h : BookInv st.b) :
+    BookInv (tasks.foldl (execTask cfg flt) st).b :=
+  foldl_inv (execTask cfg flt) (fun s => BookInv s.b) tasks st h (fun s t _ hs => execTask_bookInv cfg flt s t hs)
 
 theorem initExec_bookInv (dst : Map DNode) (n : Nat) : BookInv (initExec dst n).b :=
   ⟨rfl, rfl, rfl, rfl⟩
@@ -60,14 +62,14 @@ theorem initExec_bookInv (dst : Map DNode) (n : Nat) : BookInv (initExec dst n).
 /-! ### events and errors partition the task list -/
 
 /-- every task is accounted for exactly once: as an event or as an error -/
-theorem foldl_execTask_accounted (cfg : Cfg) (tasks : List Task) (st : Exec) :
-    ((tasks.foldl (execTask cfg) st).b.events.length + (tasks.foldl (execTask cfg) st).b.errors.length
+theorem foldl_execTask_accounted (cfg : Cfg) (flt : Faults) (tasks : List Task) (st : Exec) :
+    ((tasks.foldl (execTask cfg flt) st).b.events.length + (tasks.foldl (execTask cfg flt) st).b.errors.length
       = st.b.events.length + st.b.errors.length + tasks.length) := by
   induction tasks generalizing st with
   | nil => simp
   | cons t ts ih =>
     simp only [List.foldl_cons, ih, List.length_cons]
-    rcases execTask_book cfg st t with ⟨w', _, he⟩ | ⟨_, he⟩ <;> rw [he]
+    rcases execTask_book cfg flt st t with ⟨w', he⟩ | ⟨w', he⟩ <;> rw [he]
     · have : (st.b.ok t).events.length = st.b.events.length + 1 ∧ (st.b.ok t).errors = st.b.errors := by
         unfold Book.ok; cases t.act <;> simp
       rw [this.1, this.2]; omega
@@ -80,15 +82,15 @@ theorem perform_dry (cfg : Cfg) (h : cfg.dryRun = true) (w : World) (t : Task) :
   unfold perform
   cases hact : t.act <;> simp [h]
 
-theorem execTask_dry (cfg : Cfg) (h : cfg.dryRun = true) (st : Exec) (t : Task) :
-    execTask cfg st t = ⟨st.w, st.b.ok t⟩ := by
-  unfold execTask; rw [perform_dry cfg h]
+theorem execTask_dry (cfg : Cfg) (flt : Faults) (h : cfg.dryRun = true) (st : Exec) (t : Task) :
+    execTask cfg flt st t = ⟨st.w, st.b.ok t⟩ := by
+  unfold execTask; simp only [h, Bool.true_or, ↓reduceIte]; rw [perform_dry cfg h]
 
-theorem foldl_execTask_dry_w (cfg : Cfg) (h : cfg.dryRun = true) (tasks : List Task) (st : Exec) :
-    (tasks.foldl (execTask cfg) st).w = st.w := by
+theorem foldl_execTask_dry_w (cfg : Cfg) (flt : Faults) (h : cfg.dryRun = true) (tasks : List Task) (st : Exec) :
+    (tasks.foldl (execTask cfg flt) st).w = st.w := by
   induction tasks generalizing st with
   | nil => rfl
-  | cons t ts ih => simp only [List.foldl_cons, ih, execTask_dry cfg h]
+  | cons t ts ih => simp only [List.foldl_cons, ih, execTask_dry cfg flt h]
 
 theorem Book.ok_events (b : Book) (t : Task) : (b.ok t).events = (t.act, t.rel) :: b.events := by
   unfold Book.ok; cases t.act <;> rfl
@@ -96,30 +98,30 @@ theorem Book.ok_events (b : Book) (t : Task) : (b.ok t).events = (t.act, t.rel) 
 theorem Book.ok_errors (b : Book) (t : Task) : (b.ok t).errors = b.errors := by
   unfold Book.ok; cases t.act <;> rfl
 
-theorem foldl_execTask_dry_events (cfg : Cfg) (h : cfg.dryRun = true) (tasks : List Task) (st : Exec) :
-    (tasks.foldl (execTask cfg) st).b.events = (tasks.map fun t => (t.act, t.rel)).reverse ++ st.b.events := by
+theorem foldl_execTask_dry_events (cfg : Cfg) (flt : Faults) (h : cfg.dryRun = true) (tasks : List Task) (st : Exec) :
+    (tasks.foldl (execTask cfg flt) st).b.events = (tasks.map fun t => (t.act, t.rel)).reverse ++ st.b.events := by
   induction tasks generalizing st with
   | nil => simp
   | cons t ts ih =>
-    simp only [List.foldl_cons, ih, execTask_dry cfg h, Book.ok_events, List.map_cons, List.reverse_cons,
+    simp only [List.foldl_cons, ih, execTask_dry cfg flt h, Book.ok_events, List.map_cons, List.reverse_cons,
       List.append_assoc, List.singleton_append]
 
-theorem foldl_execTask_dry_errors (cfg : Cfg) (h : cfg.dryRun = true) (tasks : List Task) (st : Exec) :
-    (tasks.foldl (execTask cfg) st).b.errors = st.b.errors := by
+theorem foldl_execTask_dry_errors (cfg : Cfg) (flt : Faults) (h : cfg.dryRun = true) (tasks : List Task) (st : Exec) :
+    (tasks.foldl (execTask cfg flt) st).b.errors = st.b.errors := by
   induction tasks generalizing st with
   | nil => rfl
-  | cons t ts ih => simp only [List.foldl_cons, ih, execTask_dry cfg h, Book.ok_errors]
+  | cons t ts ih => simp only [List.foldl_cons, ih, execTask_dry cfg flt h, Book.ok_errors]
 
 /-- without failures the event list is the task list, in order -/
-theorem foldl_execTask_events_of_no_errors (cfg : Cfg) (tasks : List Task) (st : Exec)
-    (h : (tasks.foldl (execTask cfg) st).b.errors = st.b.errors) :
-    (tasks.foldl (execTask cfg) st).b.events = (tasks.map fun t => (t.act, t.rel)).reverse ++ st.b.events := by
+theorem foldl_execTask_events_of_no_errors (cfg : Cfg) (flt : Faults) (tasks : List Task) (st : Exec)
+    (h : (tasks.foldl (execTask cfg flt) st).b.errors = st.b.errors) :
+    (tasks.foldl (execTask cfg flt) st).b.events = (tasks.map fun t => (t.act, t.rel)).reverse ++ st.b.events := by
   induction tasks generalizing st with
   | nil => simp
   | cons t ts ih =>
     simp only [List.foldl_cons] at h ⊢
     -- errors only grow
-    have hmono : ∀ (l : List Task) (s : Exec), s.b.errors.length ≤ (l.foldl (execTask cfg) s).b.errors.length := by
+    have hmono : ∀ (l : List Task) (s : Exec), s.b.errors.length ≤ (l.foldl (execTask cfg flt) s).b.errors.length := by
       intro l
       induction l with
       | nil => intro s; simp
@@ -127,16 +129,16 @@ theorem foldl_execTask_events_of_no_errors (cfg : Cfg) (tasks : List Task) (st :
         intro s
         simp only [List.foldl_cons]
         refine Nat.le_trans ?_ (ihl _)
-        rcases execTask_book cfg s a with ⟨w', _, he⟩ | ⟨_, he⟩ <;> rw [he]
+        rcases execTask_book cfg flt s a with ⟨w', he⟩ | ⟨w', he⟩ <;> rw [he]
         · rw [Book.ok_errors]; exact Nat.le_refl _
         · simp [Book.fail]
-    rcases execTask_book cfg st t with ⟨w', _, he⟩ | ⟨_, he⟩
+    rcases execTask_book cfg flt st t with ⟨w', he⟩ | ⟨w', he⟩
     · rw [he] at h ⊢
       have := ih ⟨w', st.b.ok t⟩ (by rw [h, Book.ok_errors])
       rw [this, Book.ok_events]; simp
     · exfalso
       rw [he] at h
-      have := hmono ts ⟨st.w, st.b.fail t⟩
+      have := hmono ts ⟨w', st.b.fail t⟩
       rw [h] at this
       simp [Book.fail] at this
       omega
